@@ -167,9 +167,9 @@ func init() {
 			"non-trivial = more than one instance was started (the last done raced new Dos); distinct = distinct (holders, instances, directed site) signatures",
 		Assumptions: []string{"instance functions return only after observing stop closed (so an instance cannot end while held by its own choice)"},
 		Families: []core.Family{
-			{Name: "random", N: core.TierN(4000, 40000), Batch: 100, Run: c17Random},
-			{Name: "directed", N: core.TierN(60, 800), Batch: 20, Run: c17Directed},
-			{Name: "hammer", N: core.TierN(16, 200), Batch: 2, Run: c17Hammer},
+			{Name: "random", N: core.TierN(4000, 160000), Batch: 100, Run: c17Random},
+			{Name: "directed", N: core.TierN(60, 3200), Batch: 20, Run: c17Directed},
+			{Name: "hammer", N: core.TierN(16, 800), Batch: 2, Run: c17Hammer},
 		},
 	})
 }
